@@ -59,7 +59,16 @@ def build_kvh(tmp, log=None):
             os.path.getmtime(os.path.join(REPO, "go.sum")) > os.path.getmtime(os.path.join(HARNESS, "go.sum")):
         shutil.copy(os.path.join(REPO, "go.sum"), os.path.join(HARNESS, "go.sum"))
     t0 = time.time()
-    r = subprocess.run(["go", "build", "-tags", "verif", "-overlay", ov, "-o", out, "./cmd/kvh"],
+    cmd = ["go", "build", "-tags", "verif", "-overlay", ov, "-o", out]
+    if os.path.realpath(REPO) != "/repo":
+        # scratch worktree (mutation experiments): same harness, kraken replaced by $VERIF_REPO
+        mf = os.path.join(tmp, "alt.mod")
+        src = open(os.path.join(HARNESS, "go.mod")).read().replace("=> /repo", "=> " + os.path.realpath(REPO))
+        open(mf, "w").write(src)
+        shutil.copy(os.path.join(REPO, "go.sum"), os.path.join(tmp, "alt.sum"))
+        cmd += ["-modfile", mf]
+    cmd += ["./cmd/kvh"]
+    r = subprocess.run(cmd,
                        cwd=HARNESS, env=goenv(), stdout=subprocess.PIPE, stderr=subprocess.STDOUT, text=True)
     if r.returncode != 0:
         raise Broken("harness build failed (tree does not compile with hooks/shims?):\n" + r.stdout[-4000:])
@@ -200,11 +209,16 @@ def split_traces(lines):
 
 
 def load_known(pid):
-    p = os.path.join(VERIF, "known_findings.json")
-    if not os.path.exists(p):
-        return []
-    d = json.load(open(p))
-    return [f for f in d.get("findings", []) if f.get("property") == pid and f.get("status") == "known"]
+    out = []
+    paths = [os.path.join(VERIF, "known_findings.json")]
+    dd = os.path.join(VERIF, "known_findings.d")
+    if os.path.isdir(dd):
+        paths += sorted(os.path.join(dd, f) for f in os.listdir(dd) if f.endswith(".json"))
+    for p in paths:
+        if os.path.exists(p):
+            d = json.load(open(p))
+            out += [f for f in d.get("findings", []) if f.get("property") == pid and f.get("status") == "known"]
+    return out
 
 
 def match_known(known, rec, trace_head):
